@@ -15,7 +15,7 @@ echo "demo pristine exit=$P0 patched exit=$P1"
 cleanup; trap - EXIT
 if [ -n "$(git -C /repo status --porcelain --untracked-files=no)" ]; then echo "/repo dirty, abort"; exit 3; fi
 git -C /repo apply $D/patch.diff || exit 3
-( cd /verif && VERIF_TIER=$TIER timeout 3000 /venv/bin/python check.py $PROP --tier $TIER 2>&1 | grep -v conda > /tmp/seeded_$PROP.log ); RC=${PIPESTATUS[0]}
+( cd /verif && VERIF_EVIDENCE_DIR=/tmp/ev_seeded VERIF_TIER=$TIER timeout 3000 /venv/bin/python check.py $PROP --tier $TIER 2>&1 | grep -v conda > /tmp/seeded_$PROP.log ); RC=${PIPESTATUS[0]}
 git -C /repo checkout -- .
 grep -E "^(VIOLATION|KNOWN|HARNESS)" /tmp/seeded_$PROP.log | cut -c1-200
 grep -E "^  signature" /tmp/seeded_$PROP.log | head -5
